@@ -361,6 +361,11 @@ def monitors(ctx, case, obs):
     if r["dir"]["pid"]:  # the relaunch always ends on its own
         key = "own-exit-pid-left:success" if r["ran"] == 1 and r["rc"] == 0 else "own-exit-pid-left:relaunch-skip"
         ctx.monitor_fail(key, f"[{tag}] the relaunched job ended on its own with status {r['rc']} (body ran {r['ran']}x) and left its pid file", rcase)
+    # markers stay truthful: an undisturbed run that completed the body leaves no (stale) failure marker
+    if sig == "none" and obs["rc"] == 0 and obs["completed"] and d["failed"] is not None:
+        ctx.monitor_fail("stale-failure-marker-after-success", f"[{tag}] undisturbed successful run but the directory still shows a failure marker: {d}", rcase)
+    if r["ran"] == 1 and r["rc"] == 0 and r["completed"] and r["dir"]["failed"] is not None:
+        ctx.monitor_fail("stale-failure-marker-after-success", f"[{tag}] the relaunch ran the body successfully but the directory still shows a failure marker: {r['dir']}", rcase)
     # exit status sanity: a success marker written by this process <=> exit 0 when undisturbed
     if sig == "none" and init != "done" and (obs["rc"] == 0) != d["done"]:
         ctx.monitor_fail("status-vs-marker", f"[{tag}] undisturbed run: exit status {obs['rc']} but directory {d}", rcase)
@@ -490,10 +495,10 @@ def search(ctx):
     nlines = {tuple(c["scenario"]): o["nlines"] for c, o in zip(bcases, bobs)}
     t0 = time.time()
     cases = bcases + plan(ctx, nlines, True)
-    for i in range(0, len(cases), 200):
+    for i in range(0, len(cases), 96):
         if time.time() - t0 > ctx.scale(60, 600) or [m for m in ctx.monitor_failures if not m["key"].startswith("own-exit-pid-left:success")]:
             break
-        evaluate(ctx, tpl, cases[i:i + 200], True, with_model=False)
+        evaluate(ctx, tpl, cases[i:i + 96], True, with_model=False)
 
 
 def run_witness(ctx, finding):
